@@ -23,3 +23,7 @@ register_simp_attr gmono
 register_simp_attr oframe
 /-- frame lemmas for the response tape and the bond denom -/
 register_simp_attr obframe
+/-- frame lemmas for (bank, supply, bond denom) -/
+register_simp_attr bsframe
+/-- frame lemmas for (supply, bond denom) -/
+register_simp_attr ssframe
